@@ -3,6 +3,7 @@ package main
 import (
 	"fmt"
 	"go/token"
+	"go/types"
 	"sort"
 	"strings"
 
@@ -259,4 +260,100 @@ func ruleInsertTotal(c *Ctx) {
 	c.check(ok, "(*BPTree).Insert", "cannot fail (its error is discarded at commit time and fatal on replay)", pos,
 		fmt.Sprintf("every return of Insert and of the helpers whose error it passes on yields nil (%d sites discard the error, %d fail on it)", discards, fails),
 		"Insert can return a non-nil error: Commit ignores it for a record that is already logged, and the replay of that record makes every later Open fail")
+}
+
+// ---------------------------------------------------------------------------
+// R-COMMITSET-MONO (C15 C16 C17): Merge (and recovery) decide whether a record belongs to a committed
+// transaction by looking its id up in DB.committedTxIds. A transaction's records may be spread over
+// several segments, so an id has to stay in the set for as long as any segment may still hold one of its
+// records: while the database is open the set only grows. Nothing deletes from it and nothing outside
+// Open's recovery replaces it.
+
+func ruleCommitSetMono(c *Ctx) {
+	forbidden := map[*ssa.Function]bool{}
+	for _, f := range c.P.ModCone(c.P.MustFunc("(*Tx).Commit"), c.P.MustFunc("(*DB).Merge")) {
+		forbidden[f] = true
+	}
+	isSetField := func(v ssa.Value) bool { return isFieldLoad(v, "DB", "committedTxIds") }
+	lookups, n := 0, 0
+	for _, f := range c.P.ModCone(c.P.MustFunc("Open"), c.P.MustFunc("(*Tx).Commit"), c.P.MustFunc("(*DB).Merge"), c.P.MustFunc("(*Tx).Get")) {
+		instrs(f, func(in ssa.Instruction) {
+			switch x := in.(type) {
+			case *ssa.Lookup:
+				if isSetField(x.X) {
+					lookups++
+				}
+			case *ssa.Call:
+				if bi, ok := x.Call.Value.(*ssa.Builtin); ok && bi.Name() == "delete" && len(x.Call.Args) == 2 && isSetField(x.Call.Args[0]) {
+					n++
+					c.touch(f)
+					c.bad(fnName(f), fmt.Sprintf("DB.committedTxIds only grows while the database is open (delete #%d)", n), c.P.ipos(x),
+						"an id is deleted from DB.committedTxIds: the records of a committed transaction that lie in other segments (a commit that rotated the active file, or records not merged yet) fail the committed test afterwards; Merge drops them and recovery-time logic that consults the set disagrees with the log")
+				}
+			case *ssa.Store:
+				fa, ok := x.Addr.(*ssa.FieldAddr)
+				if ok && namedIs(derefT(fa.X.Type()), "DB") && fieldVarOf(fa).Name() == "committedTxIds" && forbidden[f] {
+					n++
+					c.touch(f)
+					c.bad(fnName(f), fmt.Sprintf("DB.committedTxIds only grows while the database is open (replaced #%d)", n), c.P.ipos(x),
+						"DB.committedTxIds is replaced on the commit or merge path: ids registered before are forgotten")
+				}
+			}
+		})
+	}
+	c.Sites += lookups
+	if n == 0 {
+		c.ok("DB.committedTxIds", "only grows while the database is open", "", fmt.Sprintf("%d lookups; no delete and no replacement on the commit or merge path", lookups))
+	}
+	c.minInstances("lookups in DB.committedTxIds", lookups, 2)
+}
+
+// ---------------------------------------------------------------------------
+// R-CONSTINDEX (C20): an exported function or method that addresses element k (a constant) of one of its
+// slice parameters — a variadic list of members, a key — does so only where len(parameter) > k is
+// established on the path. Callers control the length: an empty variadic call must not panic.
+
+func ruleConstIndex(c *Ctx) {
+	n := 0
+	for _, f := range c.P.SrcFuncs {
+		if f.Pkg != c.P.Main || f.Object() == nil || !f.Object().Exported() || len(f.Blocks) == 0 {
+			continue // the ds packages are reached only through Tx, whose appliers pass exactly one member
+		}
+		k := 0
+		instrs(f, func(in ssa.Instruction) {
+			ia, ok := in.(*ssa.IndexAddr)
+			if !ok {
+				return
+			}
+			idx, isConst := constInt(ia.Index)
+			if !isConst || idx < 0 {
+				return
+			}
+			prm, ok := ia.X.(*ssa.Parameter)
+			if !ok {
+				return
+			}
+			if _, isSlice := prm.Type().Underlying().(*types.Slice); !isSlice {
+				return
+			}
+			n++
+			k++
+			c.touch(f)
+			symf := func(v ssa.Value) string {
+				v = resolve1(v)
+				if call, ok := v.(*ssa.Call); ok {
+					if bi, ok := call.Call.Value.(*ssa.Builtin); ok && bi.Name() == "len" {
+						return "len(" + pathOf(call.Call.Args[0]) + ")"
+					}
+				}
+				return pathOf(v)
+			}
+			name := "len(" + pathOf(prm) + ")"
+			edges := lowerBoundEdges(f, name, symf, idx+1, true)
+			c.check(len(edges) > 0 && edgesDominate(f, edges, in.Block()), fnName(f), fmt.Sprintf("access #%d to element %d of parameter %s is guarded by its length", k, idx, prm.Name()), c.P.ipos(in), "",
+				fmt.Sprintf("element %d of the caller-supplied slice %s is addressed with nothing on the path establishing len(%s) > %d: a call with an empty (or shorter) argument panics with 'index out of range' instead of returning an error", idx, prm.Name(), prm.Name(), idx))
+		})
+	}
+	c.Sites += n
+	c.ok("exported functions", "constant-index accesses to slice parameters examined", "", fmt.Sprintf("%d accesses", n))
 }
